@@ -87,11 +87,5 @@ theorem wfB_iff : ∀ (d : Nat) (t : Tree κ ν d), wfB d t = true ↔ WF d t
     · intro h; exact ⟨h.1, fun e he => (wfB_iff d e.2).1 (h.2 e he)⟩
     · intro h; exact ⟨h.1, fun e he => (wfB_iff d e.2).2 (h.2 e he)⟩
 
-theorem WF.sorted {d : Nat} {f : Tree κ ν (d + 1)} (h : WF (d + 1) f) :
-    Sorted (show List (κ × Tree κ ν d) from f) := h.1
-
-theorem WF.sub {d : Nat} {f : Tree κ ν (d + 1)} (h : WF (d + 1) f) :
-    ∀ e ∈ (show List (κ × Tree κ ν d) from f), WF d e.2 := h.2
-
 end
 end Ft
